@@ -107,6 +107,12 @@ let () =
                  let ns = parse_ns f.(5) in
                  let e = unesc f.(6) in
                  implode (if kind = "selall" then run_sel_all d hasns e ns else run_eval_all d hasns e ns)
+               | "sel3all" | "eval3all" ->
+                 (* the cursor-level model (Model1/Iter3.v) *)
+                 let (d, hasns) = Hashtbl.find docs f.(3) in
+                 let ns = parse_ns f.(5) in
+                 let e = unesc f.(6) in
+                 implode (if kind = "sel3all" then run_sel3_all d hasns e ns else run_eval3_all d hasns e ns)
                | "hist" ->
                  let (d, hasns) = Hashtbl.find docs f.(3) in
                  let c = parse_addr f.(4) in
